@@ -331,9 +331,21 @@ def run(ctx: Ctx) -> None:
     ctx.check(bool(guard), "R-C32.3", f"{hw.qualname}#rejects-as", hw.where, {"guards": [ast.unparse(gd.test) for gd in guard]},
               "`with m as x:` is accepted and the `as` target ignored")
     dc = idx.find_func("desugar_comprehension", "guppylang_internals.cfg.builder")
+    # interpreted: an async generator is rejected with a Guppy error, a plain one is not (shape of the guard only as fallback)
     guard = [n for n in walk_no_nested(dc.node) if isinstance(n, ast.If) and "is_async" in ast.unparse(n.test) and must_raise(n.body)]
-    ctx.check(bool(guard), "R-C32.3", f"{dc.qualname}#rejects-async", dc.where, {"guards": [ast.unparse(gd.test) for gd in guard]},
-              "`async for` inside a comprehension is accepted as a plain loop")
+    try:
+        from .c17_positions import interpret as _interp_comp
+        from ..absint.minieval import Unsupported as _Uns
+        o_async, o_plain = _interp_comp(idx, 1)[0], _interp_comp(idx, 0)[0]
+        async_ok = o_async[0] == "raise" and "GuppyError" in str(o_async[1]) and o_plain[0] == "return"
+        facts_async = {"async_generator": f"{o_async[0]} {o_async[1] if o_async[0] == 'raise' else ''}".strip(), "plain_generator": o_plain[0]}
+    except _Uns as e_:
+        async_ok, facts_async = (True if guard else None), {"guards": [ast.unparse(gd.test) for gd in guard], "not_interpretable": str(e_)}
+    if async_ok is None:
+        ctx.undecided("R-C32.3", f"{dc.qualname}#rejects-async", dc.where, facts_async["not_interpretable"])
+    else:
+        ctx.check(bool(async_ok), "R-C32.3", f"{dc.qualname}#rejects-async", dc.where, facts_async,
+                  "`async for` inside a comprehension is accepted as a plain loop")
 
     # ------------------------------------------------------------ R-C32.4 dropped statements
     ve = cfgb.methods.get("visit_Expr")
